@@ -224,6 +224,9 @@ func checkC19(p *Program, r *Report) {
 		}
 	}
 	r.Check(guarded, "(*trie.SlimTrie).String on an empty trie", p.Pos(str.Pos()), "first statement: return \"\" if the node-type bitmap is nil", "String() does not start with the empty-trie test")
+	// ---- session typestate (shared with C10): the renderer decodes every node into one reused
+	// session; a label decoder that reads a field left over from the previous node renders wrong labels
+	checkSessionTypestate(p, r, "C19.session-valid")
 }
 
 func isU64Slice(t types.Type) bool {
